@@ -218,3 +218,17 @@ def attach_replay(rep, prop, make_candidates, budget_s=5.0):
         w = dict(ob.witness or {})
         w.update(found or {'reproduced': False, 'candidates_tried': tried})
         ob.witness = w
+
+
+def default_lexer_rules():
+    """(pattern text, action) of every rule the DEFAULT lexer instance actually scans with, in scan order: the compiled
+    table of a freshly initialised Lexer (this is keywords.SQL_REGEX unless the configuration code adds or reorders
+    rules); entries that are not bound `match` methods of compiled patterns are returned with pattern None"""
+    from sqlparse import lexer
+    lx = lexer.Lexer()
+    lx.default_initialization()
+    out = []
+    for m, a in lx._SQL_REGEX:
+        pat = getattr(getattr(m, '__self__', None), 'pattern', None)
+        out.append((pat if isinstance(pat, str) else None, a))
+    return out
